@@ -17,7 +17,7 @@ import (
 	"pgregory.net/rapid"
 )
 
-func TestMain(m *testing.M)   { fdkit.InstallLogger(); vkit.Main(m) }
+func TestMain(m *testing.M)   { c19.CapMemory(); fdkit.InstallLogger(); vkit.Main(m) }
 func TestReplay(t *testing.T) { defer verifC19Cleanup(); vkit.Replay(t) }
 
 func verifC19Cleanup() {
@@ -49,8 +49,8 @@ func verifC19Gen(t *rapid.T) VerifC19Case {
 }
 
 var (
-	verifC19Dir     string
-	verifC19Seq     int
+	verifC19Dir string
+	verifC19Seq int
 )
 
 // verifC19Lines checks the bytes one batch appended.
